@@ -347,7 +347,14 @@ class Interp:
         loc = self.resolve(S, place)
         if any(e[0] in ("ix", "?") for e in loc[1]):
             self.counter += 1
-            v = ("elem", self.site(self.counter))
+            idx = None
+            for e in place.proj:
+                if isinstance(e, dict) and "ix" in e:
+                    iv = S.read((self.L(e["ix"]), ()))
+                    idx = const_val(iv)
+                elif isinstance(e, dict) and "ci" in e and not e.get("from_end"):
+                    idx = e["ci"]
+            v = ("elem", self.site(self.counter), idx)
             set_ty(v, tykey(place.ty))
             return v
         v = S.read(loc)
@@ -1004,6 +1011,8 @@ def stable(sv, depth=0):
     if h == "k":
         v = sv[2]
         if isinstance(v, tuple):
+            if v[0] == "b":
+                return "bytes:" + "".join("%02x" % x for x in v[1])
             return str(v[1]) if v[0] in ("s", "fn") else v[0]
         return str(v)
     if h == "param":
@@ -1027,7 +1036,7 @@ def stable(sv, depth=0):
     if h in ("min", "max"):
         return "%s(%s,%s)" % (h, r(sv[2]), r(sv[3]))
     if h == "elem":
-        return "elem"
+        return "elem" if len(sv) < 3 or sv[2] is None else "elem[%s]" % sv[2]
     if h == "upd":
         return r(sv[1])
     if h == "agg":
